@@ -521,7 +521,8 @@ Section Builder.
       | _, _ => None
       end.
     Definition exec_all (st : gstate) (tasks : list (key * dyn)) : outcome + list (key * dyn) :=
-      if negb (forallb (pre_ok st) tasks) then inl RPanicEsc
+      if negb (forallb (fun t => has_node st (fst t)) tasks) then inl ROther   (* createTasks: node has not been registered *)
+      else if negb (forallb (pre_ok st) tasks) then inl RPanicEsc
       else
         let outs := map (node_out st) tasks in
         if negb (forallb (fun p => post_ok st (fst (fst p)) (snd p)) (combine tasks outs)) then inl RPanicEsc
